@@ -288,11 +288,21 @@ def rebuild(t, f):
     return f(map_children(t, lambda x: rebuild(x, f)))
 
 
+def _top_down(t, f):
+    """Rewrite with f applied to a node before its children (f returning a different node stops the descent there)."""
+    n = f(t)
+    if n is not t and n != t:
+        return n
+    return map_children(t, lambda x: _top_down(x, f))
+
+
 def substitute(t, mapping: dict):
     """Replace ('param', name) leaves by mapping[name] (used to instantiate a callee summary at a call site)."""
     def f(x):
         if x[0] == "param" and x[1] in mapping:
             return mapping[x[1]]
+        if x[0] == "free" and ("<free>" + x[1]) in mapping:
+            return mapping["<free>" + x[1]]
         if x[0] == "call" and x[1] == ("global", "getattr") and len(x[2]) == 2 and not x[3] and \
                 x[2][1][0] == "const" and isinstance(x[2][1][1], str):
             return ("attr", x[2][0], x[2][1][1])  # getattr(obj, 'name') once the name is known
@@ -1365,6 +1375,23 @@ def _inline(te: "TermEval", func: FuncInfo, depth: int, stack: tuple, stop) -> S
                 out.calls.setdefault(x, base.calls[orig])
             if orig[0] == "attr" and orig in base.props:
                 out.props.setdefault(x, base.props[orig])
+                getters = base.props[orig]
+                if len(getters) == 1 and getters[0] not in stack and getters[0] is not func and x[1] == SELF and \
+                        getters[0].param_names and (stop is None or not stop(getters[0])):
+                    g = getters[0]
+                    key = (id(g.node),)
+                    if key not in memo:
+                        memo[key] = _inline(te, g, depth - 1, stack + (func,), stop)
+                    gs = memo[key]
+                    if not gs.effects or all(e.kind in ("raise", "call") for e in gs.effects):
+                        amap = {g.param_names[0]: x[1]}
+                        for ce in gs.effects:
+                            sink.append(_subst_effect(ce, amap, pc, ctx))
+                        for k, v in gs.calls.items():
+                            out.calls.setdefault(substitute(k, amap), v)
+                        for k, v in gs.props.items():
+                            out.props.setdefault(substitute(k, amap), v)
+                        return substitute(gs.return_term(), amap)
             if cal is None:
                 return x
             amap = te._bind_args(cal, x)
@@ -1374,6 +1401,11 @@ def _inline(te: "TermEval", func: FuncInfo, depth: int, stack: tuple, stop) -> S
             if key not in memo:
                 memo[key] = _inline(te, cal, depth - 1, stack + (func,), stop)
             cs = memo[key]
+            if cal.parent is func:
+                # a closure of the function being summarised: its free variables are this function's locals
+                amap = dict(amap)
+                for n, v in base.final_env.items():
+                    amap.setdefault("<free>" + n, v)
             for ce in cs.effects:
                 sink.append(_subst_effect(ce, amap, pc, ctx))
             for k, v in cs.calls.items():
@@ -1385,12 +1417,26 @@ def _inline(te: "TermEval", func: FuncInfo, depth: int, stack: tuple, stop) -> S
             return substitute(cs.return_term(), amap)
         return f(t)
 
+    def expand_pc(pc, ctx):
+        # conditions and loop iterables are rewritten too (helper predicates / helper iterables looked through); the
+        # effects of calls made there are not hoisted a second time
+        junk: list = []
+        n_r = len(out.raises)
+        pc2 = ()
+        for c in pc:
+            pc2 += literals(expand(c, (), (), junk))
+        ctx2 = tuple((c[0], c[1], expand(c[2], (), (), junk)) if c[0] in ("for", "while") and isinstance(c[2], tuple)
+                     else c for c in ctx)
+        del out.raises[n_r:]
+        return pc2, ctx2
+
     for e in base.effects:
         sink: list = []
+        pc_x, ctx_x = expand_pc(e.pc, e.ctx)
         if e.kind == "raise":
             val = expand(e.value, e.pc, e.ctx, sink)
             out.effects.extend(sink)
-            out.effects.append(Effect("raise", None, None, val, e.pc, e.ctx, e.node, e.func))
+            out.effects.append(Effect("raise", None, None, val, pc_x, ctx_x, e.node, e.func))
             continue
         b = expand(e.base, e.pc, e.ctx, sink) if isinstance(e.base, tuple) else e.base
         k = expand(e.key, e.pc, e.ctx, sink) if e.kind == "store_sub" else e.key
@@ -1398,7 +1444,75 @@ def _inline(te: "TermEval", func: FuncInfo, depth: int, stack: tuple, stop) -> S
         out.effects.extend(sink)
         if e.kind == "call" and v[0] != "call":
             continue  # a statement-level package call: replaced by the callee's effects
-        out.effects.append(Effect(e.kind, b, k, v, e.pc, e.ctx, e.node, e.func, e.aug))
+        out.effects.append(Effect(e.kind, b, k, v, pc_x, ctx_x, e.node, e.func, e.aug))
+    # generator fusion: an effect inside `for x in <package generator>(...)` happens once per value the generator
+    # yields - it is replaced by one copy per yield statement, with x := the yielded value and the yield's own loops and
+    # conditions in place of the loop over the generator call
+    def gen_of(it):
+        tg = base.calls.get(it) or out.calls.get(it)
+        if it[0] != "call" or not tg or len(tg) != 1:
+            return None
+        g = tg[0]
+        if not g.is_generator() or g in stack or g is func or depth <= 0:
+            return None
+        return g
+    fused = []
+    for e in out.effects:
+        todo = [e]
+        for _ in range(3):
+            nxt = []
+            again = False
+            for x in todo:
+                hit = None
+                for i, c in enumerate(x.ctx):
+                    if c[0] == "for" and isinstance(c[2], tuple) and gen_of(c[2]) is not None:
+                        hit = (i, c, gen_of(c[2]))
+                        break
+                if hit is None:
+                    nxt.append(x)
+                    continue
+                i, c, g = hit
+                amap = te._bind_args(g, c[2])
+                if amap is None:
+                    nxt.append(x)
+                    continue
+                gs = _inline(te, g, depth - 1, stack + (func,), stop)
+                el = ("elem", c[2], c[1])
+                if not gs.yields or any(yt[0] == "star" for _, yt, _, _ in gs.yields):
+                    nxt.append(x)   # `yield from` inside: the loop over the generator call is kept as it is
+                    continue
+                for ypc, yt, yn, yctx in gs.yields:
+                    val = substitute(yt, amap)
+                    rep = lambda t, val=val: rebuild(t, lambda z: val if z == el else (  # noqa: E731
+                        val[1][z[2][1]] if z[0] == "sub" and z[1] == el and z[2][0] == "const" and
+                        val[0] == "tuple" and isinstance(z[2][1], int) and z[2][1] < len(val[1]) else z)) \
+                        if isinstance(t, tuple) else t
+                    # (the subscript case first: rebuild is bottom-up, so handle el[i] before el is replaced)
+                    def rep2(t, val=val):
+                        if not isinstance(t, tuple):
+                            return t
+
+                        def f(z):
+                            if z[0] == "sub" and z[1] == el and z[2][0] == "const" and val[0] == "tuple" and \
+                                    isinstance(z[2][1], int) and z[2][1] < len(val[1]):
+                                return val[1][z[2][1]]
+                            return z
+                        t2 = _top_down(t, f)
+                        return rebuild(t2, lambda z: val if z == el else z)
+                    yctx2 = tuple((k[0], k[1], substitute(k[2], amap)) if k[0] in ("for", "while") and
+                                  isinstance(k[2], tuple) else k for k in yctx)
+                    new_ctx = x.ctx[:i] + yctx2 + tuple(
+                        (k[0], k[1], rep2(k[2])) if k[0] in ("for", "while") and isinstance(k[2], tuple) else k
+                        for k in x.ctx[i + 1:])
+                    new_pc = tuple(substitute(q, amap) for q in ypc) + tuple(rep2(q) for q in x.pc)
+                    nxt.append(Effect(x.kind, rep2(x.base), rep2(x.key) if x.kind == "store_sub" else x.key,
+                                      rep2(x.value), new_pc, new_ctx, x.node, x.func, x.aug))
+                    again = True
+            todo = nxt
+            if not again:
+                break
+        fused.extend(todo)
+    out.effects = fused
     for pc, t, n in base.returns:
         sink = []
         out.returns.append((pc, expand(t, pc, (), sink), n))
